@@ -99,6 +99,15 @@ JudgeElShift(e, i) ==
        ELSE IF rs.k # "elastic" \/ TDigits(AsIntT(InnerT(rs))) < rs.d THEN [d |-> "wrong_type", nt |-> TRUE, cls |-> cls]
        ELSE [d |-> ElDiag(e.out, J(e.res), want, rs.d, rs.sg = 1), nt |-> BitLen(a) = l.d, cls |-> cls]
 
+\* scale<-k, 2>(x) = x / 2^k truncated toward zero; the result must be an elastic type that can hold it
+JudgeElScale(e, i) ==
+    LET l == i.lt  rs == i.res_t  a == J(e.l)  k == i.k
+        want == TruncDiv(a, Pow2(k))
+        cls == <<"ElScale", i.op, IF ElSigned(l) THEN "s" ELSE "u", IF a.n THEN "neg" ELSE "pos">>
+    IN IF ~InDeclared(a, l.d, ElSigned(l)) THEN [d |-> "skip", nt |-> FALSE, cls |-> cls]
+       ELSE [d |-> (IF e.out # "ok" THEN ElDiag(e.out, J(e.res), want, 200, TRUE) ELSE IF J(e.res) = want THEN "ok" ELSE "wrong_value"),
+             nt |-> BitLen(a) > k, cls |-> cls]
+
 \* numeric_limits of an elastic type: the symmetric range of its declared digits
 JudgeElLimits(e, i) ==
     LET t == i.lt  cls == <<"ElLimits", IF ElSigned(t) THEN "s" ELSE "u">> IN
